@@ -6,7 +6,7 @@ command -v java >/dev/null && command -v tlc >/dev/null
 S=$(./harness/build_sut.sh)
 python3 - <<'P'
 import sys; sys.path.insert(0, "lib"); import vlib
-for b in ("trie", "fe", "scan"):
+for b in ("trie", "fe", "scan", "types"):
     vlib.harness_bin(b)
 print("setup ok:", vlib.sut())
 P
